@@ -6,9 +6,12 @@ proof:   lean/RV/Props/C03.lean  (table = 1/n!, Horner series = truncated Stumpf
          energy / angular momentum / Laplace vector and lands at radius r0+η0G1+ζ0G2,
          mass parameter per coordinate system, termination of the halving loop over an
          Archimedean field) about lean/RV/Model/Kepler.lean + lean/RV/Gen/C03Table.lean
-tie:     the same model on IEEE doubles (drv_c03) vs the exported reb_whfast_kepler_solver /
-         reb_whfast_kepler_step, bit for bit, on generated orbits driving every branch
-search:  the real code (solver and one full sim.step() of WHFast x4 coordinate systems, SABA,
+tie:     the same model on IEEE doubles (drv_c03) vs the exported reb_whfast_kepler_solver (with and
+         without a variational particle), reb_whfast_kepler_step (4 coordinate systems),
+         reb_integrator_mercurius_kepler_step, reb_integrator_trace_whfast_step on generated orbits driving
+         every branch.  On the pinned tree all pairs are bit-identical; pairs that are not are judged
+         against the conditioned rounding unit (C03 is a "to rounding error" property).
+search:  the real code (solver, tangent map, and one full sim.step() of WHFast x4 coordinate systems, SABA,
          MERCURIUS, TRACE) against a 50-digit classical-element propagation (mpmath, python3-vt)
 
 Every call into the real solver runs in a child process under a watchdog: the solver can hang
@@ -402,15 +405,17 @@ def run_oracle(lines, nproc=12):
 def tolerance(o):
     """unit of allowed relative error of position/velocity for one case, from the reference's own
     conditioning data:
-      phase error  eps * (1 + kbeta * n|dt| + 10 (n|dt|)^2)
+      phase error  eps * (1 + 8 kbeta n|dt| + 40 (n|dt|)^2)
          kbeta = (2M/r0 + v0^2)/|beta|: rounding of beta = 2M/r0 - v^2 shifts the mean motion,
-         10 (n dt)^2: measured growth of rounding errors through the argument-doubling
-         recurrences (4^n with 4^n ~ 10 beta X^2) - only matters for steps of many periods,
+         40 (n dt)^2: measured growth of rounding errors through the argument-doubling
+         recurrences (4^n with 4^n <= 40 beta X^2) - only matters for steps of many periods,
       amplified along the orbit by max(1, |v|/(n r), GM/(r^2 n |v|)) at the end point
       (~(1-e)^(-3/2) at pericentre).
-    Calibrated on 56 000 clean-tree orbits: max error / unit = 6.9, median 0.05."""
+    Calibrated on 165 000 clean-tree orbits: max error / unit = 22 (elliptic, 512 periods, bisection
+    path), 1.6 (hyperbolic outside the F14 domain); median 0.01.  Allowed: 64 units, 256 for steps
+    longer than 100 periods."""
     amp = max(1.0, o["amp_x"], o["amp_v"])
-    phase = 1.0 + o["kbeta"] * o["ndt"] + 10.0 * o["ndt"] ** 2
+    phase = 1.0 + 8.0 * o["kbeta"] * o["ndt"] + 40.0 * o["ndt"] ** 2
     return amp * phase * EPS
 
 
@@ -464,8 +469,9 @@ def run_(c):
     c.cov["rule"] = ("orbits from classical elements: e in {0} U (0,1) U (1,50] with |1-e|>=1e-6 (10 families incl. near-parabolic on both sides), a log-uniform over 1e-6..1e6, "
                      "G and mass log-uniform over 1e-10..1e10 each, phase in {exact pericentre, exact apocentre, near pericentre, uniform true anomaly}, 6 orientations "
                      "(axis-aligned, permuted, random rotation), prograde/retrograde, dt/P in +-[1e-8,1e3] incl. whole and half periods; every case is run through the Lean Float model "
-                     "and the compiled reb_whfast_kepler_solver (child process, watchdog) and compared bit for bit, and against the mpmath reference; distinct_nontrivial = distinct "
-                     "(branch path, e-bin, dt/P decade, phase kind)")
+                     "and the compiled reb_whfast_kepler_solver (child process, watchdog) and compared (bit-identical, else within 64 conditioned rounding units), and against the mpmath reference; "
+                     "plus reb_whfast_kepler_step / MERCURIUS / TRACE Kepler steps with 1-5 particles per coordinate system and N_active, solver calls with a variational particle, and one full "
+                     "sim.step() per integrator configuration; distinct_nontrivial = distinct (branch path, e-bin, dt/P decade, phase kind) resp. (routine, coordinates, N, N_active)")
     if exe is None:
         return
     # ---------------------------------------------------------------- table tie
@@ -668,7 +674,7 @@ def run_(c):
                 c.violation("nonfinite:" + o["path"], "Kepler step returns NaN/inf coordinates (e=%.6g, dt/P=%.3g)" % (o["meta"]["e"], o["meta"]["dtP"]), rep)
             continue
         err = max(j["errx"], j["errv"])
-        tol = tolerance(j) * SAFETY
+        tol = tolerance(j) * (SAFETY if j["ndt"] < 628.0 else 4 * SAFETY)
         ratio = err / (tolerance(j))
         b = ("hyp" if hyp else "ell") + ("/F14-domain" if f14dom else "")
         if not f14dom:
